@@ -314,4 +314,124 @@ theorem scanInLineAt_account (C : Classes) {z : Z} {a rest : Bytes} (hz : z.afte
   simp only [reduceCtorEq, if_false]
   rw [between_over, mkTok_over]
 
+/-! ### commodity, text -/
+
+theorem runesF_ascii (u : Bytes) : ∀ n, u.length ≤ n → (∀ c ∈ u, c < 0x80) → runesF n u = u.map (·.toNat) := by
+  induction u with
+  | nil => intro n _ _; cases n <;> rfl
+  | cons c u ih =>
+    intro n hn hu
+    obtain ⟨n, rfl⟩ : ∃ m, n = m + 1 := ⟨n - 1, by simp at hn; omega⟩
+    unfold runesF
+    simp only [decodeRune_ascii u (hu c (by simp)), List.drop_one, List.tail_cons, List.map_cons]
+    rw [ih n (by simpa using hn) (fun x hx => hu x (by simp [hx]))]
+
+theorem runes_ascii (u : Bytes) (hu : ∀ c ∈ u, c < 0x80) : runes u = u.map (·.toNat) :=
+  runesF_ascii u _ (Nat.le_refl _) hu
+
+theorem scanCommodityOrText_commodity (C : Classes) {z : Z} {u rest : Bytes} (hz : z.after = u ++ rest)
+    (hne : u ≠ []) (hup : ∀ c ∈ u, isUpper c = true) (hC : ∀ c ∈ u, C.isUpper c.toNat = true)
+    (hstop : Stops alnum rest) :
+    scanCommodityOrText C z = (tokAt .commodity u z u.length, z.over u rest) := by
+  have hu : ∀ c ∈ u, isLetter c = true ∧ c < 0x80 := by
+    intro c hc
+    have := upper_facts c
+    simp only [hup c hc, Bool.not_true, Bool.false_or, Bool.and_eq_true, decide_eq_true_eq] at this
+    exact ⟨this.1.1, this.1.2⟩
+  have h1 : advWhile isLetter z = z.over u rest := advWhile_over isLetter hz hu hstop.letter_of_alnum
+  have h2 : advWhile (fun c => isLetter c || isDigit c) (z.over u rest) = z.over u rest := by
+    have := advWhile_over alnum (z := z.over u rest) (l := []) (rest := rest) rfl (by simp) hstop
+    rw [over_nil (z.over u rest) rest rfl] at this
+    exact this
+  have h3 : looksLikeCommodity C u = true := by
+    unfold looksLikeCommodity
+    rw [runes_ascii u (fun c hc => (hu c hc).2)]
+    simp only [Bool.and_eq_true, Bool.not_eq_true', List.isEmpty_eq_false_iff, ne_eq, hne, not_false_eq_true,
+      List.all_map, List.all_eq_true, Function.comp_apply, Bool.or_eq_true, true_and]
+    intro c hc
+    exact Or.inl (hC c hc)
+  unfold scanCommodityOrText
+  simp only [h1, h2, between_over, h3, if_true, mkTok_over]
+  split <;> rfl
+
+/-- **Commodity.**  An upper-case ASCII word that `C` calls upper case, not followed by a letter
+    or digit, on a line without a colon ahead. -/
+theorem scanInLineAt_commodity (C : Classes) {z : Z} {u rest : Bytes} (hz : z.after = u ++ rest)
+    (hne : u ≠ []) (hup : ∀ c ∈ u, isUpper c = true) (hC : ∀ c ∈ u, C.isUpper c.toNat = true)
+    (hstop : Stops alnum rest) (hacc : looksLikeAccount z.after = false) :
+    scanInLineAt C z = (tokAt .commodity u z u.length, z.over u rest) := by
+  obtain ⟨c, t, rfl⟩ := List.exists_cons_of_ne_nil hne
+  have hl : isLetter c = true := by
+    have := upper_facts c
+    simp only [hup c (by simp), Bool.not_true, Bool.false_or, Bool.and_eq_true] at this
+    exact this.1.1
+  rw [scanInLineAt_letter C (by simpa using hz) hl, hacc]
+  simp only [Bool.false_eq_true, if_false]
+  exact scanCommodityOrText_commodity C hz hne hup hC hstop
+
+/-- `strings.TrimSpace` leaves a string alone that starts and ends with a non-blank ASCII byte -/
+theorem trimSpace_id (c : UInt8) (m : Bytes) (d : UInt8) (hc : c < 0x80) (hcs : asciiSpace c = false)
+    (hd : d < 0x80) (hds : asciiSpace d = false) : trimSpace (c :: (m ++ [d])) = c :: (m ++ [d]) := by
+  have hc' : ¬ c ≥ 0x80 := by simpa using hc
+  have hd' : ¬ d ≥ 0x80 := by simpa using hd
+  unfold trimSpace
+  rw [if_neg hc']
+  simp only [hcs, Bool.false_eq_true, if_false]
+  have : (c :: (m ++ [d])).reverse = d :: (m.reverse ++ [c]) := by simp
+  rw [this]
+  unfold trimSpaceRight
+  rw [if_neg hd']
+  simp [hds]
+
+theorem trimSpace_single (c : UInt8) (hc : c < 0x80) (hcs : asciiSpace c = false) : trimSpace [c] = [c] := by
+  have hc' : ¬ c ≥ 0x80 := by simpa using hc
+  unfold trimSpace
+  rw [if_neg hc']
+  simp only [hcs, Bool.false_eq_true, if_false, List.reverse_cons, List.reverse_nil, List.nil_append]
+  unfold trimSpaceRight
+  rw [if_neg hc']
+  simp [hcs]
+
+/-- **Text.**  A lower-case word `w` followed by more text `r` up to a line feed, `;` or `|`:
+    one Text token for `w ++ r` (the lexer decides on the first word: it is neither a commodity
+    for `C` nor, with no colon ahead, an account). -/
+theorem scanInLineAt_text (C : Classes) {z : Z} {w r rest : Bytes} (hz : z.after = w ++ r ++ rest)
+    (hne : w ≠ []) (hw : ∀ c ∈ w, isLower c = true)
+    (hC : ∀ c ∈ w, C.isUpper c.toNat = false ∧ C.isDigit c.toNat = false)
+    (hr : ∀ c ∈ r, textByte c = true ∧ c < 0x80) (hrs : Stops alnum (r ++ rest)) (hstop : Stops textByte rest)
+    (hacc : looksLikeAccount z.after = false) (htrim : trimSpace (w ++ r) = w ++ r) :
+    scanInLineAt C z = (tokAt .text (w ++ r) z (w ++ r).length, z.over (w ++ r) rest) := by
+  obtain ⟨c, t, rfl⟩ := List.exists_cons_of_ne_nil hne
+  have hlow : ∀ x ∈ c :: t, isLetter x = true ∧ x < 0x80 ∧ textByte x = true ∧
+      (decide (0x41 ≤ x) && decide (x ≤ 0x5A)) = false := by
+    intro x hx
+    have := lower_facts x
+    simp only [hw x hx, Bool.not_true, Bool.false_or, Bool.and_eq_true, decide_eq_true_eq, Bool.not_eq_true'] at this
+    exact ⟨this.1.1.1.1.1.1.1, this.1.1.1.1.1.2, this.1.1.1.2, this.1.1.1.1.2⟩
+  have hz' : z.after = (c :: t) ++ (r ++ rest) := by simpa using hz
+  rw [scanInLineAt_letter C (by simpa using hz) (hlow c (by simp)).1, hacc]
+  simp only [Bool.false_eq_true, if_false]
+  have h1 : advWhile isLetter z = z.over (c :: t) (r ++ rest) :=
+    advWhile_over isLetter hz' (fun x hx => ⟨(hlow x hx).1, (hlow x hx).2.1⟩) hrs.letter_of_alnum
+  have h2 : advWhile (fun c => isLetter c || isDigit c) (z.over (c :: t) (r ++ rest)) = z.over (c :: t) (r ++ rest) := by
+    have := advWhile_over alnum (z := z.over (c :: t) (r ++ rest)) (l := []) (rest := r ++ rest) rfl (by simp) hrs
+    rw [over_nil (z.over (c :: t) (r ++ rest)) (r ++ rest) rfl] at this
+    exact this
+  have h3 : looksLikeCommodity C (c :: t) = false := by
+    unfold looksLikeCommodity
+    rw [runes_ascii _ (fun x hx => (hlow x hx).2.1)]
+    simp [(hC c (by simp)).1, (hC c (by simp)).2]
+  have h4 : isAllUppercase (c :: t) = false := by
+    simp [isAllUppercase, (hlow c (by simp)).2.2.2]
+  have h5 : advWhile (fun ch => !(ch == 0x0A || ch == 0x3B || ch == 0x7C)) z = z.over (c :: t ++ r) rest := by
+    refine advWhile_over textByte (by simpa using hz) ?_ hstop
+    intro x hx
+    rcases List.mem_append.mp hx with hx | hx
+    · exact ⟨(hlow x hx).2.2.1, (hlow x hx).2.1⟩
+    · exact hr x hx
+  unfold scanCommodityOrText
+  simp only [h1, h2, between_over, h3, h4, Bool.false_and, Bool.and_false, Bool.false_eq_true, if_false]
+  unfold scanText
+  simp only [h5, between_over, htrim, mkTok_over]
+
 end HL.Lex
